@@ -197,8 +197,8 @@ fn observe(results: &mut Vec<Option<SendResult>>, resolved: &mut Vec<Option<Stri
             _ => None,
         };
         if let Some(tok) = ready {
+            // the completed future object stays alive (as in a caller that polled it through `&mut fut`) until event D or the end
             resolved[k] = Some(tok);
-            results[k] = None;
         }
     }
 }
